@@ -33,16 +33,23 @@ def gen_case(seed, i):
     w.add_dir("out")
     files = []
     nfam = rng.randint(1, 4)
+    # every sixth world is TIGHT: two or three families of ONE common length with one file each (plus the links
+    # drawn below): whether a class is reported then hangs on how the few inodes of that size are counted at
+    # every stage, early ones included
+    tight = rng.random() < 0.17
+    if tight:
+        nfam = rng.choice([2, 2, 3])
+    n_tight = rng.choice([9, 300])
     for f in range(nfam):
-        n = rng.choice([1, 9, 300])
-        for k in range(rng.randint(1, 4)):
+        n = n_tight if tight else rng.choice([1, 9, 300])
+        for k in range(1 if tight else rng.randint(1, 4)):
             d = rng.choice(roots) + rng.choice(["", "/sub"])
             p = "%s/f%dk%d" % (d, f, k)
             w.add_file(p, {"fam": f + 1, "len": n, "flips": []})
             files.append(p)
         if rng.random() < 0.3:
             w.add_file("out/o%d" % f, {"fam": f + 1, "len": n, "flips": []})
-    for k in range(rng.choice([0, 1, 2, 3])):
+    for k in range(rng.choice([1, 2, 3]) if tight else rng.choice([0, 1, 2, 3])):
         t = rng.choice(files)
         d = rng.choice(roots) + rng.choice(["", "/sub"])
         w.add_hardlink("%s/h%d" % (d, k), t)
@@ -71,7 +78,9 @@ def gen_case(seed, i):
         w.add_symlink("L%d" % (k + 1), r)   # directory symlinks used by the "symlink" spelling
     flags = {}
     r = rng.random()
-    if r < 0.3:
+    if tight and r < 0.6:
+        flags["rf_over"] = rng.choice([1, 2, 2, 3])
+    elif r < 0.3:
         flags["rf_over"] = rng.choice([0, 1, 2, 3])
     elif r < 0.45:
         flags["rf_under"] = rng.choice([1, 2, 3])
